@@ -47,7 +47,7 @@ def run_impl(sessions, impl, wd, jobs, timeout):
     return res
 
 
-def run_models(cases, wd, jobs, batch_cost=40.0):
+def run_models(cases, wd, jobs, batch_cost=40.0, variant='old'):
     """cases: list of (name, ..., term) with an estimated cost = len(term); batches run in parallel"""
     batches = []
     cur, cost = [], 0
@@ -61,7 +61,7 @@ def run_models(cases, wd, jobs, batch_cost=40.0):
     rows = {}
     def one(ib):
         i, b = ib
-        return N.run_model(b, wd, 'model-%d' % i, timeout=1500)
+        return N.run_model(b, wd, 'model-%d' % i, timeout=1500, variant=variant)
     with cf.ThreadPoolExecutor(max_workers=jobs) as ex:
         for r in ex.map(one, enumerate(batches)):
             rows.update(r)
@@ -85,6 +85,16 @@ def run_nb_check(ctx, mix_quick, mix_thorough, extra=None, jobs=8):
         'layouts, parsing of the printed result) are trusted',
         'variable offsets (begin, recsize) are taken from the implementation\'s own inq line (layout = C03)',
     ]
+    # ---------------- which variant of extract_reqs is in the sources as built (the model has both: Nonblocking.v, fx)
+    variant, vnote = N.detect_variant(lib)
+    ctx.cov['model_variant'] = dict(variant=variant, note=vnote,
+                                    theorems='fx = false: *_old_refuted + *_partial; fx = true: status_own, wait_subset_frame, failed_wait_no_effect, nb_run_inv_fixed in full')
+    if variant is None:
+        # fail closed: no model describes this source, nothing is shown; look for a failing input with the spec oracle only
+        variant_unknown = True
+        variant = 'old'
+    else:
+        variant_unknown = False
     # ---------------- sessions
     sessions = make_sessions(ctx, mix_thorough if ctx.tier == 'thorough' else mix_quick)
     t0 = time.time()
@@ -118,7 +128,7 @@ def run_nb_check(ctx, mix_quick, mix_thorough, extra=None, jobs=8):
         ivs[tag] = iv
         cases.append(N.coq_case(tag, s, iv.view))
     t0 = time.time()
-    rows = run_models(cases, wd, jobs)
+    rows = run_models(cases, wd, jobs, variant=variant)
     t_model = time.time() - t0
     disagreements = []; oracle_fails = []
     for tag, s in sessions:
@@ -146,6 +156,7 @@ def run_nb_check(ctx, mix_quick, mix_thorough, extra=None, jobs=8):
                             f['detail'] += ' [the same script under OMPI_MCA_io=romio321 passes: MPI-IO layer (ompio), not PnetCDF]'
                     mism = [m for m in mism if m['rel'] not in ('corr_C13_buffer', 'corr_C02_file', 'corr_C02_readback')]
                     stats['ompio_vs_romio'] = stats.get('ompio_vs_romio', 0) + 1
+        fails_all = list(fails)          # a history derailed by ANY finding (of either property) is not a clean correspondence sample
         mism = [m for m in mism if in_domain(pid, m['rel'], True)]
         fails = [f for f in fails if in_domain(pid, f['kind'], False)]
         if fails:
@@ -153,10 +164,10 @@ def run_nb_check(ctx, mix_quick, mix_thorough, extra=None, jobs=8):
             oracle_fails.append((tag, s, fails))
         if mism:
             stats['model_disagreements'] += 1
-            disagreements.append((tag, s, mism, bool(fails)))
+            disagreements.append((tag, s, mism, bool(fails_all)))
             if len(stats.setdefault('disagreement_samples', [])) < 12:
                 stats['disagreement_samples'].append('%s: %s line %s rank %s%s: %s' % (tag, mism[0]['rel'], mism[0]['line'], mism[0]['rank'],
-                                                     ' (session also fails the oracle: %s)' % fails[0]['key'] if fails else '', mism[0]['detail'][:160]))
+                                                     ' (session also fails the oracle: %s)' % fails_all[0]['key'] if fails_all else '', mism[0]['detail'][:160]))
     stats['wall_impl_s'] = round(t_impl, 1); stats['wall_model_s'] = round(t_model, 1)
     extra_stats = extra(ctx, lib, wd) if extra else None
     if extra_stats:
@@ -196,6 +207,8 @@ def run_nb_check(ctx, mix_quick, mix_thorough, extra=None, jobs=8):
     broken = []
     if not proof_ok:
         broken.append('theorem(s) of Properties_%s.v no longer check: %s' % (pid, ', '.join(pr['failed'])[:500]))
+    if variant_unknown:
+        broken.append('the wait path of the sources as built is not one of the two modelled variants: ' + vnote)
     # a disagreement in a session the oracle does not fault = the model no longer describes the library
     pure = [d for d in disagreements if not d[3]]
     if pure:
